@@ -139,7 +139,8 @@ def run(ck: Check) -> None:  # noqa: PLR0912, PLR0915
         "between the markers around the tag is the same for the three callers when the tag's arguments are literals or global paths; (B) the "
         "caller's probes after the tag equal its probes before it and its counters continue; (C) a partial or macro body reaching an include "
         "tag raises DisabledTagError, at any block depth and through a nested render; (D) a partial rendered from inside another partial or a "
-        "macro body prints the same whatever the enclosing partial's / macro's arguments are. Non-trivial = the body reads or writes a name "
+        "macro body prints the same whatever the enclosing partial's / macro's arguments are; (E) render .. for over 2-3 items prints the "
+        "concatenation of rendering each item on its own. Non-trivial = the body reads or writes a name "
         "the caller binds; distinct = distinct (body, tag, caller) triple."
     )
     ck.exhaustive = False
@@ -180,7 +181,7 @@ def run(ck: Check) -> None:  # noqa: PLR0912, PLR0915
                                "outputs": [meta[i][2] for i in group]}, **(extra or {})))
 
     # ------------------------------------------------------------- A + B: render / call from three callers
-    n_groups = 220 if ck.quick else 2200
+    n_groups = 160 if ck.quick else 2000
     for gi in range(n_groups):
         loader = {}
         kind = rng.choice(["render", "render", "call"])
@@ -264,8 +265,32 @@ def run(ck: Check) -> None:  # noqa: PLR0912, PLR0915
             if inc[1] == "inc" and s[0] != "out":
                 report("include-disabled-at-top-level", f"{L.case_sources(case)} gave {s}", [i])
 
+    # ------------------------------------------------------------- E: render ... for renders the items independently
+    n_for = 30 if ck.quick else 300
+    for gi in range(n_for):
+        loader = {"p": None}
+        loader["p"] = gen_body(rng, 1, loader, allow_nested=(gi % 2 == 0)) + [text("#")]
+        items = [f"i{j}" for j in range(rng.randrange(2, 4))]
+        alias = rng.choice([None, "x", "y"])
+        args = [(rng.choice(NAMES), lit("ra"))] if rng.random() < 0.5 else []
+        whole = L.mk_case([("render", "p", (P("its"), True, alias), args)], loader=loader, args=dict(GLOBALS, its=items))
+        i, s = run_case("render-for:all", whole)
+        group, parts = [i], []
+        ck.note_case(("render-for", L.case_json(whole)))
+        ck.count("render-for.items%d" % len(items))
+        # each item on its own: a one-item list gives the item the same bound variable; the forloop drop is not read by these bodies
+        for itm in items:
+            single = L.mk_case([("render", "p", (P("its"), True, alias), args)], loader=loader, args=dict(GLOBALS, its=[itm]))
+            j, sj = run_case("render-for:single", single)
+            group.append(j)
+            parts.append(sj)
+        if s[0] == "out" and all(x[0] == "out" for x in parts) and s[1] != "".join(x[1] for x in parts):
+            report("render-for-items-share-state",
+                   f"render for {items} prints {s[1]!r} but the items rendered one by one print {[x[1] for x in parts]}: "
+                   f"{L.case_sources(whole)}", group)
+
     # ------------------------------------------------------------- D: nested partials see only explicit arguments
-    n_nested = 60 if ck.quick else 600
+    n_nested = 40 if ck.quick else 500
     for gi in range(n_nested):
         loader = {"p": None}
         loader["p"] = gen_body(rng, 1, loader, allow_nested=False)
@@ -340,6 +365,8 @@ def replay(data) -> int:
             segs = [segments(o) for o in outs]
             print("text of the isolated body per caller:", segs)
             bad = len({repr(x) for x in segs}) != 1 if all(o[0] == "out" for o in outs) else len({tuple(o) for o in outs}) != 1
+        elif orc == "render-for-items-share-state":
+            bad = all(o[0] == "out" for o in outs) and outs[0][1] != "".join(o[1] for o in outs[1:])
         elif orc.endswith("changes-caller-variables"):
             o = outs[0]
             bad = o[0] == "out" and PROBE_B.findall(o[1]) != PROBE_A.findall(o[1])
